@@ -92,6 +92,26 @@ def gen_flow(rng):
     return {"fam": "flow", "nodes": ns, "starting": starting, "suppress": rng.random() < 0.3}
 
 
+def gen_flow_rerun(rng):
+    """round 7: the hand-wired flow is run TWICE on the same objects -- a prelude run in which OTHER nodes fail, flags
+    cleared by hand, constants re-assigned -- and the second run is judged: signals heard by all-of triggers in the
+    aborted first run must not count (a composite that wires its flow once -- non-automated workflow, macro -- has only
+    the per-run reset to rely on)"""
+    c = gen_flow(rng)
+    ns = c["nodes"]
+    cands = [(i, j) for i, nd in enumerate(ns) for j, inp in enumerate(nd["ins"]) if inp["init"] is not None]
+    pre = []
+    for i, j in cands:
+        v = ns[i]["ins"][j]["init"]
+        pre.append([i, j, abs(v) if v != -6 else 6])          # what fails in the judged run is healthy in the prelude
+    for t in rng.sample(pre, min(len(pre), rng.choice([1, 1, 2]))):
+        if ns[t[0]]["ins"][t[1]]["init"] >= 0:
+            t[2] = -rng.randint(1, 5)                          # ... and something else fails there
+    c["prelude"] = pre
+    c["suppress"] = False
+    return c
+
+
 class _Timeout(BaseException):
     pass
 
@@ -140,6 +160,28 @@ def run_flow(case):
     old = _signal.signal(_signal.SIGALRM, _alarm)
     _signal.alarm(10)
     exc = None
+    prev_outs = None
+    if case.get("prelude"):
+        for c in ch:
+            c.use_cache = False
+        for i, j, v in case["prelude"]:
+            ch[i].inputs[nodes.ARG[j]].value = v
+        try:
+            wf.run()
+        except _Timeout:
+            _signal.alarm(0)
+            _signal.signal(_signal.SIGALRM, old)
+            return "timeout"
+        except BaseException as e:      # noqa: BLE001
+            if isinstance(e, (KeyboardInterrupt, SystemExit)):
+                raise
+        for c in [wf] + ch:
+            c.failed = False
+            c.running = False
+        for i, j, _ in case["prelude"]:
+            ch[i].inputs[nodes.ARG[j]].value = case["nodes"][i]["ins"][j]["init"]
+        prev_outs = [_slot(c.outputs.y.value) for c in ch]
+        nodes.reset()
     nodes.KI_ENABLED = True         # an argument -6 is a Ctrl-C landing inside that node's body (local runs only)
     try:
         if case["suppress"]:
@@ -163,7 +205,8 @@ def run_flow(case):
             "prov": [idx[l] for l in wf.provenance_by_execution],
             "outs": [_slot(c.outputs.y.value) for c in ch], "failed": [bool(c.failed) for c in ch],
             "running": [bool(c.running) for c in ch], "wf": [bool(wf.failed), bool(wf.running)],
-            "raised": sorted({t for t, a in nodes.CALLS if any(x < 0 for x in a)})}
+            "raised": sorted({t for t, a in nodes.CALLS if any(x < 0 for x in a)}),
+            **({"prev_outs": prev_outs} if prev_outs is not None else {})}
 
 
 def flow_coq(case):
@@ -215,7 +258,7 @@ def flow_oracle(case, o):
     if o["raised"] != failed:
         return f"wrong-failed-flags: functions of {o['raised']} raised but nodes {failed} are marked failed"
     for i in failed:
-        if o["outs"][i] != "nd":
+        if o["outs"][i] != (o["prev_outs"][i] if "prev_outs" in o else "nd"):
             return f"output-changed: failing node n{i} has output {o['outs'][i]} although it never completed"
     if failed and not o["wf"][0]:
         return "parent-not-failed: a child failed but the workflow is not marked failed"
@@ -652,6 +695,7 @@ def generate(ctx):
     out += [gen_free(rng) for _ in range(ctx.n(150, 1500))]
     for _ in range(ctx.n(12, 60)):
         out.append({"fam": "iffail", "xs": [rng.choice([0, 1, 5, -1, -1]) for _ in range(rng.randint(1, 5))], "suppress": False})
+    out += [gen_flow_rerun(rng) for _ in range(ctx.n(250, 2500))]
     return out
 
 
@@ -691,7 +735,7 @@ def _has_interrupt(case):
 def model_term(case):
     if case["fam"] == "free":
         return f"obs_free {flow_coq(case)} {cn(FUEL)} {cl(cn(i) for i in case['starting'])}"
-    if case["fam"] != "flow" or _has_interrupt(case):
+    if case["fam"] != "flow" or _has_interrupt(case) or case.get("prelude"):     # re-run histories: oracle only
         # a KeyboardInterrupt is not collected by the composite's loop (it leaves at once): oracle only
         return None
     return flow_term(case)
